@@ -95,6 +95,28 @@ def check(ctx):
     # a function list that repeats a name (to weight it), compared across interpreter processes with different hash seeds
     for g in [c for c in cfgs if c['kind'] == 'GP'][:1]:
         chosen.append(dict(g, functions=['SUM', 'SUM', 'MUL', 'SUB', 'MUL', 'COS'], n_agents=max(g['n_agents'], 10), max_depth=g['min_depth'] + 2, xproc=True))
+    # the dictionary handed to a constructor is the caller's: after construction and a task it still says what the caller wrote
+    # (re-using it for the next optimizer must give the same optimizer)
+    import copy as _copy
+    L_ = lib.load()
+    for kind_ in [k for k in runlevel.KINDS if k != 'GP']:
+        r_ = _rnd.Random(ctx['seed'] * 107 + len(kind_))
+        d_ = runlevel.hyper_sample(r_, kind_, 6, 'random')
+        if not d_:
+            continue
+        keep = _copy.deepcopy(d_)
+        rpd = dict(how='dict-untouched', kind=kind_, hyper=keep)
+        try:
+            np.random.seed(5)
+            o_ = L_['kinds'][kind_](hyperparams=d_)
+            sp_ = L_['SearchSpace'](n_agents=6, n_variables=2, n_iterations=4, lower_bound=[-3, -3], upper_bound=[3, 3])
+            L_['Opytimizer'](space=sp_, optimizer=o_, function=L_['Function'](pointer=lambda x: float(np.sum(np.abs(x)) + 0.5))).start()
+        except Exception as ex:
+            C.issue('dict-scenario-raised', 'correspondence', rpd, error=type(ex).__name__ + ': ' + str(ex)[:80])
+            continue
+        if d_ != keep:
+            C.issue('hyperparameter-dictionary-modified', 'oracle', rpd, after={k: repr(v) for k, v in d_.items()})
+        C.case(key=('dict', kind_), nontrivial=True, kind='dict-untouched')
     for n, c in enumerate(chosen):
         rp = dict(how='twice', cfg=c)
         # the preceding workload: the same kind of task (same shapes, so freed memory is re-used) with another
@@ -157,6 +179,16 @@ def search(ctx, corr, broken):
 
 
 def replay(prop, payload):
+    if payload.get('how') == 'dict-untouched':
+        import copy as _copy
+        L_ = lib.load()
+        np = L_['np']
+        d_ = _copy.deepcopy(payload['hyper'])
+        np.random.seed(5)
+        o_ = L_['kinds'][payload['kind']](hyperparams=d_)
+        sp_ = L_['SearchSpace'](n_agents=6, n_variables=2, n_iterations=4, lower_bound=[-3, -3], upper_bound=[3, 3])
+        L_['Opytimizer'](space=sp_, optimizer=o_, function=L_['Function'](pointer=lambda x: float(np.sum(np.abs(x)) + 0.5))).start()
+        return d_ != payload['hyper']
     a = child(payload['cfg'], [], 1)
     b = child(payload['cfg'], payload.get('workload') or [], 2)
     if a['digest'] != b['digest'] or a['error'] != b['error'] or bool(a['touched']) or bool(b['touched']):
